@@ -26,7 +26,7 @@ ASSUME = c08.ASSUME + [
 
 
 def run(tier, seed):
-    return c08.run_prop(PROP, REQ_PROPS, tier, seed, 600 if tier == "quick" else 8000, RULE, ASSUME)
+    return c08.run_prop(PROP, REQ_PROPS, tier, seed, 600 if tier == "quick" else 5000, RULE, ASSUME)
 
 
 def replay(path, tier, seed):
